@@ -875,6 +875,7 @@ impl Scenario for MigScenario {
                 let targets = DuenessTargets::new(BlockHeight::from_u32(scanned_t), BlockHeight::from_u32(est_t));
                 let before = state_digest(&state);
                 let before_anchors: Vec<Option<u32>> = state.transactions().iter().map(|t| t.anchor_boundary().map(u32::from)).collect();
+                let before_sched: Vec<u32> = state.transactions().iter().map(|t| u32::from(t.scheduled_height())).collect();
                 let before_status = state.status();
                 let r = catch(|| advance_migration(&mut store, &mut state, targets, &config, &mut rng));
                 let r = match r {
@@ -916,6 +917,12 @@ impl Scenario for MigScenario {
                         }
                         // a transfer that had a proving anchor keeps one: re-scheduling may re-draw the boundary, and keeps the
                         // prior one when no fresh boundary can be drawn
+                        if before_sched.iter().zip(state.transactions()).any(|(b, t)| *b != u32::from(t.scheduled_height())) {
+                            ctx.probe("overdue_shift_applied");
+                            if before_anchors.iter().zip(state.transactions()).any(|(b, t)| b.is_some() && b != &t.anchor_boundary().map(u32::from)) {
+                                ctx.probe("overdue_shift_redrew_an_anchor");
+                            }
+                        }
                         ctx.oracle("anchor_never_lost");
                         for (b, t) in before_anchors.iter().zip(state.transactions()) {
                             if b.is_some() && t.anchor_boundary().is_none() && !matches!(t.state(), MigrationTxState::Mined { .. }) {
@@ -1032,6 +1039,13 @@ impl Scenario for MigScenario {
                             zcash_pool_migration::engine::prove_preparation(&mut prover, &mut state, id, scanned_tip).map_err(|e| format!("{e}"))
                         }
                     });
+                    let anchor_after = state.transactions().iter().find(|x| x.id() == id).and_then(|x| x.anchor_boundary());
+                    if anchor_after != t.anchor_boundary() {
+                        ctx.probe("anchor_redrawn_at_proving");
+                        if !matches!(r, Ok(Ok(zcash_pool_migration::engine::ProveOutcome::Proved(_)))) {
+                            ctx.probe("anchor_redrawn_at_proving_but_not_proved");
+                        }
+                    }
                     ctx.oracle_n("prover_anchor_is_witnessable", prover.anchors_seen);
                     if let Some(c) = prover.complaint.take() {
                         return self.v(ctx, true, Violation::new("prover_anchor_is_witnessable", format!("{id:?}: {c}; {}", summarize_tx(t))));
@@ -1086,7 +1100,7 @@ impl Scenario for MigScenario {
                                     if matches!(t.kind(), MigrationTxKind::Transfer { .. }) && world.scanned >= u32::from(t.scheduled_height()) {
                                         ctx.probe("proved_at_or_after_broadcast_height");
                                     }
-                                    let inject = !fault_free && ch.chance("prove.other_error", 1, 12);
+                                    let inject = !fault_free && ch.chance("prove.other_error", 1, if self.prop == "C17" { 4 } else { 12 });
                                     if inject {
                                         ctx.fault("prover_error");
                                     }
